@@ -28,6 +28,17 @@ Theorem C13_unlock_restores : forall P, DE P -> B64 P -> B64nil P ->
 Proof. exact unlock_restores. Qed.
 Print Assumptions C13_unlock_restores.
 
+(* Deterministic channel keys (account key / CHANNEL / k, what DeterministicChannelKeyManager hands out): none while
+   locked, and after unlock with the same password exactly those the accounts had before locking, for every k. *)
+Theorem C13_channel_keys_restored : forall P, DE P -> B64 P -> B64nil P ->
+  forall w pw rnd k, wf_wallet P w -> w_pw w = Some pw -> Forall len16 rnd ->
+  exists w1 w2,
+    lock P rnd w = Ok w1 /\ Forall (fun b => channel_view P b k = None) (w_accounts w1)
+    /\ unlock P pw w1 = (UTrue, w2)
+    /\ map (fun a => channel_view P a k) (w_accounts w2) = map (fun a => channel_view P a k) (w_accounts w).
+Proof. exact channel_keys_restored. Qed.
+Print Assumptions C13_channel_keys_restored.
+
 (* The same through the disk: the dict of an encrypted save (what storage.write renders), read back as
    Wallet.from_storage does (keys sorted, every account flagged encrypted, no password in memory), then unlocked
    with the password of the save: True, and the same seeds, private keys, public keys as before the save. *)
